@@ -177,6 +177,8 @@ class P:
                     ty.append(t); self.next()
                 e = ("cast", e, " ".join(ty))
                 continue
+            if self.peek()[1] == "." and self.peek(1)[0] == "num" and self.peek(1)[1].isdigit():
+                self.next(); e = ("field", e, self.next()[1]); continue
             if self.peek()[1] == "." and self.peek(1)[0] == "id":
                 self.next(); name = self.next()[1]
                 gen = None
@@ -206,6 +208,18 @@ class P:
                 while not self.accept("|"): params.append(self.next()[1])
             body = self.expr()
             return ("closure", params, body)
+        if self.peek() == ("op", "<"):
+            g = self.generics(); path = ["<" + g + ">"]
+            while self.peek()[1] == "::" and self.peek(1)[0] == "id":
+                self.next(); path.append(self.next()[1])
+            gen = None
+            if self.peek()[1] == "::" and self.peek(1)[1] == "<": self.next(); gen = self.generics()
+            name = "::".join(path)
+            if self.peek()[1] == "(":
+                self.next(); args = []
+                while not self.accept(")"): args.append(self.expr()); self.accept(",")
+                return ("fcall", name, args, gen)
+            return ("var", name)
         k, v = self.next()
         if k == "num": return ("num", int(v.replace("_", "").replace("usize", "")))
         if k == "str": return ("str", v)
@@ -928,6 +942,8 @@ CMD_KERNELS = [
         "(start_index end_index : Nat) (known hasDropFn needsDrop : Bool)",
         {"start_index": "start_index", "end_index": "end_index"}, {}, {}, ["any_vec_raw"], [],
         dict(UNK, **{"hasDropFn": "hasDropFn", "mem::needs_drop": "needsDrop"})),
+    ("element_drop_cmds", "element.rs", "drop", None, "(slot : Nat) (hasDropFn : Bool)",
+        {}, {}, {"self.element.as_ptr()": ("slot", False)}, [], [], {"hasDropFn": "hasDropFn"}),
     ("temp_drop_cmds", "ops/temp.rs", "drop", "impl<Op: Operation> Drop for TempValue", "(slot : Nat) (known hasDropFn : Bool)",
         {}, {}, {"self.op.bytes()": ("slot", False)}, ["drop_fn"], [], dict(UNK, hasDropFn="hasDropFn")),
 ]
@@ -1141,6 +1157,10 @@ class EmitTrace(Emit):
     def cond(self, e, pre):
         key = self.path(e) if e[0] in ("call", "field", "var") else None
         if key in self.conds: return self.conds[key]
+        if e[0] == "fcall" and e[1] == "Unknown::is" and not e[2]:
+            return "(!otherKnown)" if "Other" in (e[3] or "") else "(!known)"
+        if e[0] == "not" and e[1][0] == "fcall" and e[1][1] == "Unknown::is" and not e[1][2]:
+            return "otherKnown" if "Other" in (e[1][3] or "") else "known"
         if e[0] == "bin" and e[1] in ("==", "!="):
             a, b = self.is_typeid(e[2]), self.is_typeid(e[3])
             if a and b and a != b: return "sameType" if e[1] == "==" else "(!sameType)"
@@ -1164,6 +1184,8 @@ class EmitTrace(Emit):
             if name == "Some":
                 for a in e[2]: self.calls(a, out)
                 out.append("TStep.retSome"); return
+            if name == "panic!" and len(e[2]) == 1 and e[2][0][0] == "str":
+                out.append("TStep.panic %s" % e[2][0][1]); return
             for a in e[2]: self.calls(a, out)
             short = "::".join(name.split("::")[-2:])
             if short in self.SKIP or name in self.SKIP: return
@@ -1212,7 +1234,8 @@ inductive TStep where
   | retSome | retNone | unwrap | ret
   | panic (msg : String)
 """
-ANY = {"self.len()": "len", "self.raw.len": "len", "self.len": "len", "index": "index", "self.this().len": "len"}
+ANY = {"self.len()": "len", "self.raw.len": "len", "self.len": "len", "index": "index", "self.this().len": "len",
+       "additional": "index", "min_capacity": "index", "new_len": "index", "capacity": "index"}
 ANYC = {"self.is_empty()": "(len == 0)"}
 TRACES = [
     # (lean name, file, fn, marker, params)
@@ -1249,6 +1272,55 @@ TRACES = [
     ("typed_is_empty", "any_vec_typed.rs", "is_empty", None, "(len index : Nat)"),
     ("anyvec_len", "any_vec.rs", "len", None, "(len index : Nat)"),
     ("anyvec_is_empty", "any_vec.rs", "is_empty", None, "(len index : Nat)"),
+    # delegations: capacity calls, unchecked accessors, construction, reports
+    ("anyvec_reserve", "any_vec.rs", "reserve", None, "(len index : Nat)"),
+    ("anyvec_reserve_exact", "any_vec.rs", "reserve_exact", None, "(len index : Nat)"),
+    ("anyvec_shrink_to_fit", "any_vec.rs", "shrink_to_fit", None, "(len index : Nat)"),
+    ("anyvec_shrink_to", "any_vec.rs", "shrink_to", None, "(len index : Nat)"),
+    ("anyvec_set_len", "any_vec.rs", "set_len", None, "(len index : Nat)"),
+    ("anyvec_capacity", "any_vec.rs", "capacity", None, "(len index : Nat)"),
+    ("anyvec_insert_unchecked", "any_vec.rs", "insert_unchecked", None, "(len index : Nat)"),
+    ("anyvec_push_unchecked", "any_vec.rs", "push_unchecked", None, "(len index : Nat)"),
+    ("anyvec_get_unchecked", "any_vec.rs", "get_unchecked", None, "(len index : Nat)"),
+    ("anyvec_get_unchecked_mut", "any_vec.rs", "get_unchecked_mut", None, "(len index : Nat)"),
+    ("anyvec_new", "any_vec.rs", "new", None, "(len index : Nat)"),
+    ("anyvec_new_in", "any_vec.rs", "new_in", None, "(len index : Nat)"),
+    ("anyvec_with_capacity", "any_vec.rs", "with_capacity", None, "(len index : Nat)"),
+    ("anyvec_with_capacity_in", "any_vec.rs", "with_capacity_in", None, "(len index : Nat)"),
+    ("anyvec_build", "any_vec.rs", "build", None, "(len index : Nat)"),
+    ("anyvec_element_typeid", "any_vec.rs", "element_typeid", None, "(len index : Nat)"),
+    ("anyvec_element_layout", "any_vec.rs", "element_layout", None, "(len index : Nat)"),
+    ("anyvec_element_drop", "any_vec.rs", "element_drop", None, "(len index : Nat)"),
+    ("anyvec_element_clone", "any_vec.rs", "element_clone", None, "(len index : Nat)"),
+    ("raw_capacity", "any_vec_raw.rs", "capacity", None, "(len index : Nat)"),
+    ("raw_element_layout", "any_vec_raw.rs", "element_layout", None, "(len index : Nat)"),
+    ("raw_drop", "any_vec_raw.rs", "drop", None, "(len index : Nat)"),
+    ("typed_reserve", "any_vec_typed.rs", "reserve", None, "(len index : Nat)"),
+    ("typed_reserve_exact", "any_vec_typed.rs", "reserve_exact", None, "(len index : Nat)"),
+    ("typed_shrink_to_fit", "any_vec_typed.rs", "shrink_to_fit", None, "(len index : Nat)"),
+    ("typed_shrink_to", "any_vec_typed.rs", "shrink_to", None, "(len index : Nat)"),
+    ("typed_set_len", "any_vec_typed.rs", "set_len", None, "(len index : Nat)"),
+    ("typed_capacity", "any_vec_typed.rs", "capacity", None, "(len index : Nat)"),
+    ("typed_iter_mut", "any_vec_typed.rs", "iter_mut", None, "(len index : Nat)"),
+    ("typed_get_unchecked", "any_vec_typed.rs", "get_unchecked", None, "(len index : Nat)"),
+    ("typed_get_unchecked_mut", "any_vec_typed.rs", "get_unchecked_mut", None, "(len index : Nat)"),
+    ("temp_bytes_len", "ops/temp.rs", "bytes_len", None, "(known : Bool)"),
+    ("temp_size", "ops/temp.rs", "size", None, "(known : Bool)"),
+    ("temp_as_bytes_ptr", "ops/temp.rs", "as_bytes_ptr", None, "(known : Bool)"),
+    ("temp_clone_into", "ops/temp.rs", "clone_into", None, "(known : Bool)"),
+    ("element_size", "element.rs", "size", None, "(known : Bool)"),
+    ("element_value_typeid", "element.rs", "value_typeid", None, "(known : Bool)"),
+    ("element_clone_into", "element.rs", "clone_into", None, "(known : Bool)"),
+    ("opsiter_next", "ops/iter.rs", "next", None, "(known : Bool)"),
+    ("opsiter_next_back", "ops/iter.rs", "next_back", None, "(known : Bool)"),
+    ("opsiter_len", "ops/iter.rs", "len", None, "(known : Bool)"),
+    ("opsiter_size_hint", "ops/iter.rs", "size_hint", None, "(known : Bool)"),
+    ("mem_expand_default", "mem/mod.rs", "expand", None, "(known : Bool)"),
+    ("mem_expand_exact_default", "mem/mod.rs", "expand_exact", None, "(known : Bool)"),
+    ("heap_build_with_size", "mem/heap.rs", "build_with_size", None, "(len index : Nat)"),
+    ("lib_copy_nonoverlapping_value", "lib.rs", "copy_nonoverlapping_value", None, "(known : Bool)"),
+    ("ptr_element_size", "any_vec_ptr.rs", "element_size", None, "(known : Bool)"),
+    ("ptr_element_typeid", "any_vec_ptr.rs", "element_typeid", None, "(known : Bool)"),
     # values: how each kind moves into a slot, and the checked downcasts
     ("lazy_move_into", "any_value/lazy_clone.rs", "move_into", None, "(sameType : Bool)"),
     ("lazy_clone_into", "any_value/lazy_clone.rs", "clone_into", None, "(sameType : Bool)"),
@@ -1259,6 +1331,7 @@ TRACES = [
     ("value_downcast_mut", "any_value/mod.rs", "downcast_mut", None, "(sameType : Bool)"),
     ("value_downcast_unchecked", "any_value/mod.rs", "downcast_unchecked", None, "(sameType : Bool)"),
     ("value_swap", "any_value/mod.rs", "swap", None, "(sameType : Bool)"),
+    ("value_swap_unchecked", "any_value/mod.rs", "swap_unchecked", None, "(known otherKnown : Bool)"),
     ("element_downcast_ref", "element.rs", "downcast_ref", None, "(sameType : Bool)"),
     ("element_downcast_mut", "element.rs", "downcast_mut", None, "(sameType : Bool)"),
     ("anyvec_downcast_ref", "any_vec.rs", "downcast_ref", None, "(sameType : Bool)"),
@@ -1271,10 +1344,11 @@ def translate_traces(repo_src):
             src = strip_comments(open(os.path.join(repo_src, f)).read())
             ast = P(tokenize(find_fn(src, fn, marker))).block()
             env = dict(ANY)
-            if fn in ("len", "is_empty"): env = {"self.raw.len": "len", "self.this().len": "len"}
+            value_fn = lname in ("anyvec_len", "typed_len", "anyvec_is_empty", "typed_is_empty")
+            if value_fn: env = {"self.raw.len": "len", "self.this().len": "len"}
             em = EmitTrace(env, ANYC)
             steps = []
-            if fn in ("len", "is_empty"):
+            if value_fn:
                 # value functions: their result as a term
                 if len(ast) != 1 or ast[0][0] != "tail": raise KernelError("not a single expression")
                 e = ast[0][1]
@@ -1284,6 +1358,8 @@ def translate_traces(repo_src):
                     if not (e[0] == "bin" and e[1] == "==" and e[3] == ("num", 0) and e[2][0] == "call" and e[2][2] == "len"):
                         raise KernelError("is_empty is not `self.len() == 0`")
                     lean = "[TStep.call \"len\" [], TStep.call \"== 0\" []]"
+            elif len(ast) == 1 and ast[0][0] == "tail" and ast[0][1][0] in ("var", "field") :
+                lean = '[TStep.call "= %s" []]' % unparse(ast[0][1])       # a plain field read
             else:
                 em.stmts_t(ast, steps)
                 lean = "[" + ", ".join(steps) + "]"
@@ -1580,6 +1656,59 @@ def translate_bytes(repo_src):
     out.append("def copy_bytes_prog (count : Nat) (dstLeSrc miri : Bool) : List BStep :=\n  %s\n" % lean)
     return "\n".join(out), errors
 
+
+def translate_ptr_at(repo_src):
+    """`utils::element_ptr_at` / `element_mut_ptr_at`: the byte offset of element `index` on the erased and on the typed path"""
+    out = []; errors = {}
+    for lname, fn, rawfn, typedfn in [("element_ptr_at_off", "element_ptr_at", "get_unchecked", "as_ptr"),
+                                       ("element_mut_ptr_at_off", "element_mut_ptr_at", "get_unchecked_mut", "as_mut_ptr")]:
+        try:
+            psrc = strip_comments(open(os.path.join(repo_src, "any_vec_ptr.rs")).read())
+            rsrc = strip_comments(open(os.path.join(repo_src, "any_vec_raw.rs")).read())
+            tsrc = strip_comments(open(os.path.join(repo_src, "any_vec_typed.rs")).read())
+            ast = P(tokenize(find_fn(psrc, fn, None))).block()
+            ifs = [st for st in ast if st[0] in ("expr", "tail") and st[1][0] == "if"]
+            if len(ifs) != 1 or ast[-1] is not ifs[0]: raise KernelError("%s does not end in the erased/typed `if`" % fn)
+            c, a, b = ifs[0][1][1], ifs[0][1][2], ifs[0][1][3]
+            if c[0] == "fcall" and c[1] == "Unknown::is": er, ty = a, b
+            elif c[0] == "not" and c[1][0] == "fcall" and c[1][1] == "Unknown::is": er, ty = b, a
+            else: raise KernelError("condition is not Unknown::is::<Element>()")
+            def tail(stmts):
+                if len(stmts) != 1 or stmts[0][0] != "tail": raise KernelError("branch is not a single expression")
+                return stmts[0][1]
+            e = tail(er)
+            if not (e[0] == "call" and e[2] == rawfn and e[3] == [("var", "index")]): raise KernelError("erased branch is not any_vec_raw.%s(index)" % rawfn)
+            ev = EmitView({"index": "index", "self.element_layout().size()": "size"}, {})
+            rb = P(tokenize(find_fn(rsrc, rawfn, None))).block()
+            off_e = ev.bptr(tail(rb))
+            if off_e[1]: raise KernelError("AnyVecRaw::%s returns a typed pointer" % rawfn)
+            t = tail(ty)
+            while t[0] == "cast": t = t[1]
+            ok = (t[0] == "call" and t[2] == "add" and t[3] == [("var", "index")] and t[1][0] == "call" and t[1][2] == typedfn and not t[1][3]
+                  and t[1][1][0] == "fcall" and t[1][1][1].startswith("AnyVecTyped"))
+            if not ok: raise KernelError("typed branch is not AnyVecTyped::new(..).%s().add(index)" % typedfn)
+            tb = P(tokenize(find_fn(tsrc, typedfn, None))).block()
+            base = ev.bptr(tail(tb))
+            if not base[1]: raise KernelError("AnyVecTyped::%s is not a typed pointer" % typedfn)
+            lean = "(if !known then %s else (%s + index * size))" % (off_e[0], base[0])
+        except KernelError as ex:
+            errors[lname] = str(ex); lean = "USIZE_MAX -- could not be translated: %s" % str(ex)
+        except Exception as ex:
+            errors[lname] = "translator failure: %r" % (ex,); lean = "USIZE_MAX -- translator failure"
+        out.append("/-- `%s` in src/any_vec_ptr.rs: byte offset of element `index` from the storage pointer -/" % fn)
+        out.append("def %s (index size : Nat) (known : Bool) : Nat :=\n  %s\n" % (lname, lean))
+    # Iter::new
+    try:
+        src = strip_comments(open(os.path.join(repo_src, "iter.rs")).read())
+        rows = lexical_fields(find_fn(src, "new", None))
+        lean = "[" + ", ".join('("%s", "%s")' % (a_, b_) for a_, b_ in rows) + "]"
+    except KernelError as ex:
+        errors["iter_new_fields"] = str(ex); lean = '[("error", "%s")]' % str(ex).replace('"', "'")
+    except Exception as ex:
+        errors["iter_new_fields"] = "translator failure: %r" % (ex,); lean = '[("error", "translator failure")]'
+    out.append("/-- `Iter::new` in src/iter.rs -/\ndef iter_new_fields : List (String × String) :=\n  %s\n" % lean)
+    return "\n".join(out), errors
+
 def translate(repo_src):
     """-> (lean text, {kernel: error}) ; kernels that cannot be translated are emitted as `Res.ub "<why>"` stubs"""
     out = ["/- generated by py/kernelgen.py from /repo/src on every run: the crate's pure integer kernels -/",
@@ -1671,6 +1800,8 @@ def translate(repo_src):
     out.append(ltext); errors.update(lerrs)
     btext, berrs = translate_bytes(repo_src)
     out.append(btext); errors.update(berrs)
+    ptext, perrs = translate_ptr_at(repo_src)
+    out.append(ptext); errors.update(perrs)
     out.append("end AnyVec.Gen.Kernel\n")
     return "\n".join(out), errors
 
